@@ -18,7 +18,7 @@ PROP = dict(
           "both samples have >=2 values and differ as multisets. Distinct = distinct case JSON. A second confidence level a few 1e-8 away from the first (around the binomial coverage steps of the sample size) is evaluated right afterwards in a third of the cases. One case in twelve holds values near the top of the float range (order-statistic models only). A warning that more samples are needed to detect a difference must be true for the two sample sizes (2/C(n1+n2,n1) > alpha). In a third of the cases the rendered range is also checked on a summary given directly (lo <= centre <= hi from zero, +-1, subnormals, +-1e308, +-MaxFloat64, +-Inf and random bit patterns). cli unit: the C14 reference pipeline on benchstat invocations that always set -alpha."),
     assumptions=["go-moremath is the pinned dependency version of /repo/go.mod"],
     units=[
-        R("rapid", "A", "./c13", "TestC13Rapid", (3000, 8), (80000, 16)),
+        R("rapid", "A", "./c13", "TestC13Rapid", (3000, 16), (80000, 16)),
         R("cli", "B", "./cmd/benchstat", "TestC13CLI", (300, 4), (4000, 8)),
     ],
 )
